@@ -98,7 +98,9 @@ pub const SHAPES: &[&str] = &[
 fn cpu_seconds() -> f64 {
     let mut ru: libc::rusage = unsafe { std::mem::zeroed() };
     unsafe { libc::getrusage(libc::RUSAGE_SELF, &mut ru) };
-    ru.ru_utime.tv_sec as f64 + ru.ru_utime.tv_usec as f64 / 1e6 + ru.ru_stime.tv_sec as f64 + ru.ru_stime.tv_usec as f64 / 1e6
+    // user time only: system time (page faults, allocation under memory pressure) depends on what
+    // else the machine is doing, not on the work the library does
+    ru.ru_utime.tv_sec as f64 + ru.ru_utime.tv_usec as f64 / 1e6
 }
 
 /// Executed in the child: build the shape at size n, run it, print CPU seconds.
@@ -226,10 +228,27 @@ fn shape_check(shape: &str, n: usize) -> Option<String> {
         Ok(t) => t,
         Err(e) => return Some(format!("shape {shape} at n={}: {e}", 4 * n)),
     };
-    if t4 > 9.0 * t1 + 0.05 {
-        return Some(format!("shape {shape}: CPU {t1:.3}s at n={n} but {t4:.3}s at n={} (more than 9x + 50ms: work is not proportional to input size)", 4 * n));
+    if t4 <= 9.0 * t1 + 0.05 {
+        return None;
     }
-    None
+    // CPU time is a noisy observation on a busy machine: measure both sizes twice more and judge
+    // the smallest time seen for each (noise only ever adds time). (Not for the two shapes with a
+    // listed finding: their outcome never fails the check, and re-measuring a quadratic shape is
+    // expensive.)
+    let (mut t1, mut t4) = (t1, t4);
+    let listed = shape == "nest-end-tag-handlers" || shape == "many-selectors";
+    for _ in 0..if listed { 0 } else { 2 } {
+        if let Ok(t) = run_child(shape, n) {
+            t1 = t1.min(t);
+        }
+        if let Ok(t) = run_child(shape, 4 * n) {
+            t4 = t4.min(t);
+        }
+        if t4 <= 9.0 * t1 + 0.05 {
+            return None;
+        }
+    }
+    Some(format!("shape {shape}: CPU {t1:.3}s at n={n} but {t4:.3}s at n={} (smallest time measured for each; more than 9x + 50ms: work is not proportional to input size)", 4 * n))
 }
 
 pub fn run_check(ctx: &Ctx) -> i32 {
@@ -418,8 +437,11 @@ pub fn run_check(ctx: &Ctx) -> i32 {
                 *ctx.machinery_error.lock().unwrap() = Some(msg);
                 continue;
             }
-            // timing may differ between runs: confirm once more before reporting
-            if let Some(msg2) = shape_check(shape, base) {
+            // timing may differ between runs: confirm once more before reporting (a time-out or a
+            // crash of the child is reported at once)
+            let listed = *shape == "nest-end-tag-handlers" || *shape == "many-selectors";
+            let confirm = if msg.contains("not proportional") && !listed { shape_check(shape, base) } else { Some(msg.clone()) };
+            if let Some(msg2) = confirm {
                 let case = json!({"kind": "shape", "shape": shape, "n": base});
                 let _ = msg;
                 if *shape == "many-selectors" && msg2.contains("not proportional") {
@@ -427,7 +449,8 @@ pub fn run_check(ctx: &Ctx) -> i32 {
                 } else if *shape == "nest-end-tag-handlers" && msg2.contains("not proportional") {
                     ctx.known_or_violation("end-tag-handler-scan-quadratic", msg2.clone(), case, &|| Some(msg2.clone()));
                 } else {
-                    ctx.violation_determinism(msg2, case, &|| None);
+                    let (sh, b) = (shape.to_string(), base);
+                    ctx.violation_timing(msg2, case, &move || shape_check(&sh, b));
                 }
             }
         }
